@@ -171,13 +171,16 @@ fn compile_adhoc_script(
         .get("version")
         .map(coercion::expr_into_number)
         .transpose()?
-        .map(|v| v as PlutusVersion)
         .unwrap_or(3);
-    let script_bytes = script.unwrap().to_vec();
+    let script_bytes = script
+        .ok_or(Error::MissingExpression("script".to_string()))?
+        .to_vec();
     let script_ref = match version {
         0 => {
             let decoded: pallas::codec::utils::KeepRaw<'_, primitives::NativeScript> =
-                minicbor::decode(&script_bytes).unwrap();
+                minicbor::decode(&script_bytes).map_err(|_| {
+                    Error::FormatError("error decoding native script cbor".to_string())
+                })?;
             let owned_script = decoded.to_owned();
             primitives::ScriptRef::NativeScript(owned_script)
         }
@@ -425,8 +428,16 @@ fn compile_vote_delegation_certificate(
     x: &tir::AdHocDirective,
     network: Network,
 ) -> Result<primitives::Certificate, Error> {
-    let stake = coercion::expr_into_stake_credential(&x.data["stake"], network)?;
-    let drep = coercion::expr_into_bytes(&x.data["drep"])?;
+    let stake = x
+        .data
+        .get("stake")
+        .ok_or(Error::MissingExpression("stake".to_string()))?;
+    let stake = coercion::expr_into_stake_credential(stake, network)?;
+    let drep = x
+        .data
+        .get("drep")
+        .ok_or(Error::MissingExpression("drep".to_string()))?;
+    let drep = coercion::expr_into_bytes(drep)?;
     let drep = primitives::DRep::Key(coercion::bytes_into_hash(drep.as_slice())?);
 
     Ok(primitives::Certificate::VoteDeleg(stake, drep))
@@ -600,7 +611,9 @@ fn compile_single_spend_redeemer(
     let index = sorted_inputs
         .iter()
         .position(|x| utxo_ref_matches(input_id, x))
-        .unwrap();
+        .ok_or(Error::ConsistencyError(
+            "redeemer for an input that is not part of the tx body".to_string(),
+        ))?;
 
     let redeemer = primitives::Redeemer {
         tag: primitives::RedeemerTag::Spend,
@@ -949,16 +962,24 @@ fn infer_plutus_version(witness_set: &primitives::WitnessSet) -> PlutusVersion {
 fn compute_script_data_hash(
     witness_set: &primitives::WitnessSet,
     pparams: &PParams,
-) -> Option<primitives::Hash<32>> {
-    let version = infer_plutus_version(witness_set);
+) -> Result<Option<primitives::Hash<32>>, Error> {
+    // the language view (and hence the cost model) only takes part when there are redeemers
+    let language_view = match &witness_set.redeemer {
+        Some(_) => {
+            let version = infer_plutus_version(witness_set);
 
-    let cost_model = pparams.cost_models.get(&version).unwrap();
+            let cost_model = pparams.cost_models.get(&version).ok_or(Error::MissingExpression(
+                format!("cost model for plutus version {version}"),
+            ))?;
 
-    let language_view = primitives::LanguageView(version, cost_model.clone());
+            Some(primitives::LanguageView(version, cost_model.clone()))
+        }
+        None => None,
+    };
 
-    let data = primitives::ScriptData::build_for(witness_set, &Some(language_view));
+    let data = primitives::ScriptData::build_for(witness_set, &language_view);
 
-    data.map(|x| x.hash())
+    Ok(data.map(|x| x.hash()))
 }
 
 pub fn entry_point(tx: &tir::Tx, pparams: &PParams) -> Result<primitives::Tx<'static>, Error> {
@@ -966,7 +987,8 @@ pub fn entry_point(tx: &tir::Tx, pparams: &PParams) -> Result<primitives::Tx<'st
     let transaction_witness_set = compile_witness_set(tx, &transaction_body, pparams.network)?;
     let auxiliary_data = compile_auxiliary_data(tx)?;
 
-    transaction_body.script_data_hash = compute_script_data_hash(&transaction_witness_set, pparams);
+    transaction_body.script_data_hash =
+        compute_script_data_hash(&transaction_witness_set, pparams)?;
     transaction_body.auxiliary_data_hash = auxiliary_data.as_ref().map(|x| x.compute_hash());
 
     Ok(primitives::Tx {
